@@ -961,7 +961,9 @@ pub fn opts_tree_strategy(cfg: TreeCfg) -> BoxedStrategy<(Opts, Tree)> {
 pub fn opts_strategy() -> BoxedStrategy<Opts> {
     (
         prop_oneof![6 => 1usize..=12, 1 => Just(100_000usize)],
-        prop_oneof![3 => 1usize..=64, 4 => 64usize..=2048, 1 => Just(20usize << 20)],
+        // (a tenth between the small range and the default: with the rare files of 20-300 KB
+        // these give blocks of tens of KB)
+        prop_oneof![3 => 1usize..=64, 4 => 64usize..=2048, 1 => 2049usize..=200_000, 1 => Just(20usize << 20)],
         prop_oneof![1 => Just(0u64), 4 => 0u64..=3000, 1 => Just(1u64 << 20)],
     )
         .prop_map(|(hunk, block, cap)| Opts { hunk, block, cap })
